@@ -5,6 +5,11 @@ import json, subprocess
 HOOK_COMMITS = ["e830588", "a6f2056", "d667224"]
 
 CHECKS = {
+ "C09": dict(
+  technique="runtime differential + history monitor: deliveries of one connection under varied partition / ISN / arrival order vs the in-order baseline, with a coverage invariant evaluated at every report",
+  text="Exploration: 3.2k (quick) / 100k (thorough) seeded HTTP/1.x and HTTP/2 exchanges, each delivered under every (strided in quick) 2-cut, every initial sequence number within one stream length of 2^32, all permutations of up to 5 client segments and random two-direction partitions/orders (~7.7e5 deliveries quick). Each delivery must report exactly the baseline request and response, once, in the right direction, and never before the delivered segments cover the head contiguously. Held = no delivery differed.",
+  note="Needs hooks H1/H3. No retransmissions/overlaps/FIN/RST; SYN and SYN+ACK first as the property presupposes.",
+  design="6 C09"),
  "C07": dict(
   technique="runtime differential monitor: isolated vs interleaved analysis of scripted connections on the real analyzers, virtual clock, canonical per-frame result comparison",
   text="Exploration: 24k (quick) / 800k (thorough) seeded scenarios of 2..8 connections (TCP handshakes with timestamps, multi-segment ClientHellos, HTTP/1.x, HTTP/2 incl. hostile HPACK blocks, garbage, truncated) are each analysed alone and under 3..5 order-preserving interleavings on the TCP, HTTP, TLS and unified analyzers; the per-frame canonical results of every connection must be identical in both runs. Held = no connection's result sequence changed in any explored interleaving.",
